@@ -339,3 +339,284 @@ Proof.
 Qed.
 
 End WithNum.
+
+(* ------------------------------------------------------------------------------------- *)
+(* 6. finite tables: the zone names of config.json and the GMT forms, through the real     *)
+(*    regexes and the whole pipeline (executed instance, binary64)                         *)
+(* ------------------------------------------------------------------------------------- *)
+Definition CK1 : clock := {| ck_today := 20000; ck_year := 2024 |}.
+
+(* one-line execution: (printed text, value) *)
+Definition run_line (cfg : config float) (text : str) : option (str * option (token float)) :=
+  match execute LX CK1 cfg (s "en") text with
+  | Ok r => match er_lines r with
+            | [Some o] => match lo_result o with LOk out a => Some (out, ast_as_token a) | _ => None end
+            | _ => None end
+  | Panic _ => None
+  end.
+
+Definition time_is (r : option (str * option (token float))) (out : str) (t : Z) (n : str) (o : Z) : bool :=
+  match r with
+  | Some (out', Some (TTime t' z)) => str_eqb out' out && Z.eqb t' t && str_eqb (tz_name z) n && Z.eqb (tz_off z) o
+  | _ => false
+  end.
+
+Lemma time_is_true r out t n o : time_is r out t n o = true ->
+  r = Some (out, Some (TTime t {| tz_name := n; tz_off := o |})).
+Proof.
+  destruct r as [[out' [tok|]]|]; try discriminate. destruct tok; try discriminate.
+  cbn [time_is]. rewrite !andb_true_iff, !str_eqb_eq, !Z.eqb_eq. intros [[[-> ->] H3] H4].
+  destruct tz as [n' o']. cbn in H3, H4. subst. reflexivity.
+Qed.
+
+(* the zone names the zone syntax (?P<timezone_1>[A-Z]{2,4}) can express ... *)
+Definition expressible (n : str) : bool :=
+  (2 <=? length n)%nat && (length n <=? 4)%nat && forallb (fun c => (65 <=? c)%N && (c <=? 90)%N) n.
+(* ... and that are not also currency codes (`30 TMT` is money) *)
+Definition is_currency_code (n : str) : bool := assoc_mem (to_lowercase n) d_currency.
+Definition table_zones : list (str * Z) :=
+  filter (fun p => expressible (fst p) && negb (is_currency_code (fst p))) d_timezones.
+
+Definition W1030 : Z := wall_of 10 30 0.
+
+(* every table zone: `10:30 Z` is 10:30 in Z; `10:30 Z to GMT+3` and `10:30 EST to Z` convert *)
+Definition zone_row_ok (p : str * Z) : bool :=
+  let '(n, o) := p in
+  time_is (run_line default_config (s "10:30 " ++ n))
+          (clock_text W1030 ++ 32%N :: n) (instant_of 20000 W1030 o) n o &&
+  time_is (run_line default_config (s "10:30 " ++ n ++ s " to GMT+3"))
+          (clock_text (shown W1030 o 180) ++ s " GMT+3") (instant_of 20000 W1030 o) (s "GMT+3") 180 &&
+  time_is (run_line default_config (s "10:30 EST to " ++ n))
+          (clock_text (shown W1030 (-300) o) ++ 32%N :: n) (instant_of 20000 W1030 (-300)) n o &&
+  match set_timezone default_config n with Some (n', o') => str_eqb n' n && Z.eqb o' o | None => false end.
+
+Lemma zone_table_check : forallb zone_row_ok table_zones = true.
+Proof. vm_compute. reflexivity. Qed.
+
+Theorem zone_table : forall n o, In (n, o) table_zones ->
+  run_line default_config (s "10:30 " ++ n)
+    = Some (clock_text W1030 ++ 32%N :: n, Some (TTime (instant_of 20000 W1030 o) {| tz_name := n; tz_off := o |})) /\
+  run_line default_config (s "10:30 " ++ n ++ s " to GMT+3")
+    = Some (clock_text (shown W1030 o 180) ++ s " GMT+3",
+            Some (TTime (instant_of 20000 W1030 o) {| tz_name := s "GMT+3"; tz_off := 180 |})) /\
+  run_line default_config (s "10:30 EST to " ++ n)
+    = Some (clock_text (shown W1030 (-300) o) ++ 32%N :: n,
+            Some (TTime (instant_of 20000 W1030 (-300)) {| tz_name := n; tz_off := o |})) /\
+  set_timezone default_config n = Some (n, o).
+Proof.
+  intros n o Hin. pose proof zone_table_check as T. rewrite forallb_forall in T. specialize (T _ Hin).
+  unfold zone_row_ok in T. rewrite !andb_true_iff in T. destruct T as [[[T1 T2] T3] T4].
+  repeat split; try (apply time_is_true; assumption).
+  destruct (set_timezone default_config n) as [[n' o']|]; [|discriminate].
+  apply andb_true_iff in T4 as [A B]. apply str_eqb_eq in A. apply Z.eqb_eq in B. subst. reflexivity.
+Qed.
+
+(* how many zones that is, and that the table has no two offsets for one name *)
+Lemma zone_table_size : length d_timezones = 191%nat /\ length table_zones = 174%nat.
+Proof. vm_compute. split; reflexivity. Qed.
+
+(* the zones recognised in a text: the zone regex's captures run through parse_timezone *)
+Definition lex_zone (cfg : config float) (text : str) : list (str * Z) :=
+  match timezone_cre with
+  | Some c => let data := to_uppercase text in
+     flat_map (fun cp => match parse_timezone cfg c data cp with Some r => [r] | None => [] end) (caps_iter c data)
+  | None => []
+  end.
+
+(* GMT forms: sign +, - or none; hour 0..19 written with one or two digits; optional :mm *)
+Definition num_str (z : Z) : str := Z_to_str z.
+Definition gmt_text (sign : str) (hh : str) (mm : option Z) : str :=
+  s "GMT" ++ sign ++ hh ++ match mm with Some m => 58%N :: two_digits m | None => [] end.
+Definition gmt_offset (sign : str) (h : Z) (mm : option Z) : Z :=
+  (60 * h + match mm with Some m => m | None => 0 end) * (if str_eqb sign (s "-") then -1 else 1).
+
+Definition zrange (n : nat) : list Z := map Z.of_nat (seq 0 n).
+Definition hour_spellings (h : Z) : list str := if h <? 10 then [num_str h; two_digits h] else [num_str h].
+Definition minute_options : list (option Z) := None :: map Some (zrange 60).
+
+Definition gmt_form_ok (sign : str) (h : Z) (hh : str) (mm : option Z) : bool :=
+  let text := gmt_text sign hh mm in
+  let off := gmt_offset sign h mm in
+  match lex_zone default_config text with
+  | [(n, o)] => str_eqb n text && Z.eqb o off
+  | _ => false
+  end &&
+  match set_timezone default_config text with
+  | Some (n, o) => str_eqb n text && Z.eqb o off
+  | None => false
+  end.
+
+Lemma gmt_forms_check :
+  forallb (fun sign => forallb (fun h => forallb (fun hh => forallb (fun mm => gmt_form_ok sign h hh mm)
+     minute_options) (hour_spellings h)) (zrange 20)) [s "+"; s "-"; []] = true.
+Proof. vm_compute. reflexivity. Qed.
+
+Theorem gmt_forms : forall sign h hh mm,
+  In sign [s "+"; s "-"; []] -> 0 <= h < 20 -> In hh (hour_spellings h) ->
+  match mm with Some m => 0 <= m < 60 | None => True end ->
+  lex_zone default_config (gmt_text sign hh mm) = [(gmt_text sign hh mm, gmt_offset sign h mm)] /\
+  set_timezone default_config (gmt_text sign hh mm) = Some (gmt_text sign hh mm, gmt_offset sign h mm).
+Proof.
+  intros sign h hh mm Hs Hh Hhh Hm. pose proof gmt_forms_check as T.
+  rewrite forallb_forall in T. specialize (T _ Hs).
+  rewrite forallb_forall in T. specialize (T h).
+  assert (Hin : In h (zrange 20)).
+  { unfold zrange. apply in_map_iff. exists (Z.to_nat h). split; [lia | apply in_seq; lia]. }
+  specialize (T Hin). rewrite forallb_forall in T. specialize (T _ Hhh).
+  rewrite forallb_forall in T. specialize (T mm).
+  assert (Hmm : In mm minute_options).
+  { unfold minute_options. destruct mm as [m|]; [right | left; reflexivity].
+    apply in_map. unfold zrange. apply in_map_iff. exists (Z.to_nat m). split; [lia | apply in_seq; lia]. }
+  specialize (T Hmm). unfold gmt_form_ok in T. apply andb_true_iff in T as [T1 T2].
+  split.
+  - destruct (lex_zone default_config (gmt_text sign hh mm)) as [|[n o] [|? ?]]; try discriminate.
+    apply andb_true_iff in T1 as [A B]. apply str_eqb_eq in A. apply Z.eqb_eq in B. subst. reflexivity.
+  - destruct (set_timezone default_config (gmt_text sign hh mm)) as [[n o]|]; try discriminate.
+    apply andb_true_iff in T2 as [A B]. apply str_eqb_eq in A. apply Z.eqb_eq in B. subst. reflexivity.
+Qed.
+
+(* the sign convention: east is positive *)
+Lemma gmt_offset_signs h m : gmt_offset (s "+") h (Some m) = 60 * h + m /\
+  gmt_offset [] h (Some m) = 60 * h + m /\ gmt_offset (s "-") h (Some m) = - (60 * h + m) /\
+  gmt_offset (s "+") h None = 60 * h /\ gmt_offset (s "-") h None = - (60 * h).
+Proof.
+  repeat split; unfold gmt_offset;
+    match goal with |- context [str_eqb ?a ?b] =>
+      let v := eval vm_compute in (str_eqb a b) in change (str_eqb a b) with v end; cbv beta iota; lia.
+Qed.
+
+(* ------------------------------------------------------------------------------------- *)
+(* 7. the default zone: set_timezone / get_time_offset as steps of the operation machine   *)
+(* ------------------------------------------------------------------------------------- *)
+Section Steps.
+Variable ck : clock.
+
+Theorem set_tz_ok m v n o : set_timezone (m_cfg m) v = Some (n, o) ->
+  let m' := fst (step ck m (OSetTz v)) in
+  snd (step ck m (OSetTz v)) = MTz true n o /\
+  get_time_offset (m_cfg m') = {| tz_name := n; tz_off := o |} /\
+  step ck m' OGetTz = (m', MTz true n o) /\
+  m_sessions m' = m_sessions m.
+Proof. intro H. cbn [step]. rewrite H. cbn. repeat split. Qed.
+
+Theorem set_tz_fail m v : set_timezone (m_cfg m) v = None -> step ck m (OSetTz v) = (m, MTz false [] 0).
+Proof. intro H. cbn [step]. rewrite H. reflexivity. Qed.
+
+Theorem get_tz_reads m :
+  step ck m OGetTz = (m, MTz true (tz_name (get_time_offset (m_cfg m))) (tz_off (get_time_offset (m_cfg m)))).
+Proof. reflexivity. Qed.
+
+Theorem exec_keeps_state m lang text : fst (step ck m (OExec lang text)) = m.
+Proof. reflexivity. Qed.
+
+(* no operation other than a successful set_timezone changes the default zone *)
+Theorem only_set_tz_changes_zone m o :
+  (forall v, o <> OSetTz v) -> get_time_offset (m_cfg (fst (step ck m o))) = get_time_offset (m_cfg m).
+Proof.
+  intro Hn. destruct o; try reflexivity; cbn [step].
+  - destruct (sess_get sid (m_sessions m)); reflexivity.
+  - destruct (sess_get sid (m_sessions m)); reflexivity.
+  - destruct (sess_get sid (m_sessions m)); [|reflexivity].
+    destruct (execute_session _ _ _ _) as [[? ?]|]; reflexivity.
+  - exfalso. eapply Hn. reflexivity.
+  - destruct (read_currency _ _); reflexivity.
+  - destruct (tokenise_patterns _ _ _ _ _); [|reflexivity].
+    destruct (assoc lang _); reflexivity.
+  - destruct (assoc lang _); [|reflexivity]. destruct (find_index _ _); reflexivity.
+  - destruct (assoc name _); reflexivity.
+  - destruct (assoc name _); [|reflexivity]. destruct (nassoc _ _); [reflexivity|].
+    destruct (tokenise_patterns _ _ _ _ _); reflexivity.
+Qed.
+
+(* histories: the default zone after a run is the last one set successfully *)
+Fixpoint final_state (m : mstate) (ops : list op) : mstate :=
+  match ops with [] => m | o :: r => final_state (fst (step ck m o)) r end.
+
+Fixpoint last_zone (cfg0 : config float) (z : tzinfo) (ops : list op) : tzinfo :=
+  match ops with
+  | [] => z
+  | OSetTz v :: r =>
+    match set_timezone cfg0 v with
+    | Some (n, o) => last_zone cfg0 {| tz_name := n; tz_off := o |} r
+    | None => last_zone cfg0 z r
+    end
+  | _ :: r => last_zone cfg0 z r
+  end.
+
+(* set_timezone reads only the zone table and the zone regex, which no operation changes *)
+Lemma set_timezone_depends cfg cfg' v : cf_timezones cfg = cf_timezones cfg' -> set_timezone cfg v = set_timezone cfg' v.
+Proof.
+  intro H. unfold set_timezone. destruct timezone_cre; [|reflexivity].
+  destruct (captures_at_p _ _ _ _ _); [|reflexivity]. destruct (cap_name _ _ "timezone"); [|reflexivity].
+  unfold parse_timezone. rewrite H. reflexivity.
+Qed.
+
+Lemma step_keeps_table m o : cf_timezones (m_cfg (fst (step ck m o))) = cf_timezones (m_cfg m).
+Proof.
+  destruct o; try reflexivity; cbn [step].
+  - destruct (sess_get sid (m_sessions m)); reflexivity.
+  - destruct (sess_get sid (m_sessions m)); reflexivity.
+  - destruct (sess_get sid (m_sessions m)); [|reflexivity].
+    destruct (execute_session _ _ _ _) as [[? ?]|]; reflexivity.
+  - destruct (set_timezone _ _) as [[? ?]|]; reflexivity.
+  - destruct (read_currency _ _); reflexivity.
+  - destruct (tokenise_patterns _ _ _ _ _); [|reflexivity].
+    destruct (assoc lang _); reflexivity.
+  - destruct (assoc lang _); [|reflexivity]. destruct (find_index _ _); reflexivity.
+  - destruct (assoc name _); reflexivity.
+  - destruct (assoc name _); [|reflexivity]. destruct (nassoc _ _); [reflexivity|].
+    destruct (tokenise_patterns _ _ _ _ _); reflexivity.
+Qed.
+
+Lemma last_zone_ext cfg cfg' :
+  (forall v, set_timezone cfg v = set_timezone cfg' v) ->
+  forall ops z, last_zone cfg z ops = last_zone cfg' z ops.
+Proof.
+  intros E ops. induction ops as [|o r IH]; intro z; [reflexivity|].
+  destruct o; cbn [last_zone]; try apply IH.
+  rewrite E. destruct (set_timezone cfg' v) as [[? ?]|]; apply IH.
+Qed.
+
+Theorem default_zone_history ops : forall m,
+  get_time_offset (m_cfg (final_state m ops)) = last_zone (m_cfg m) (get_time_offset (m_cfg m)) ops.
+Proof.
+  induction ops as [|o r IH]; intro m; [reflexivity|].
+  cbn [final_state]. rewrite IH.
+  rewrite (last_zone_ext _ (m_cfg m)) by (intro v; apply set_timezone_depends, step_keeps_table).
+  destruct o; cbn [last_zone];
+    try (f_equal; apply only_set_tz_changes_zone; intros v' Hv; discriminate).
+  cbn [step]. destruct (set_timezone (m_cfg m) v) as [[n o]|]; reflexivity.
+Qed.
+
+End Steps.
+
+(* ------------------------------------------------------------------------------------- *)
+(* 8. whole-pipeline examples (non-vacuity)                                               *)
+(* ------------------------------------------------------------------------------------- *)
+Definition cfg_with_zone (v : str) : config float := m_cfg (fst (step CK1 init_state (OSetTz v))).
+
+Theorem examples :
+  (* 10:30 in New York is 18:30 at GMT+3; the instant is 15:30 UTC of the day *)
+  run_line default_config (s "10:30 EST to GMT+3")
+    = Some (s "18:30:00 GMT+3", Some (TTime (20000 * 86400 + 15 * 3600 + 30 * 60) {| tz_name := s "GMT+3"; tz_off := 180 |})) /\
+  (* a zone east of Greenwich as the source, across midnight backwards *)
+  run_line default_config (s "1:15 JST to PST")
+    = Some (s "08:15:00 PST", Some (TTime (20000 * 86400 + 3600 + 900 - 9 * 3600) {| tz_name := s "PST"; tz_off := -480 |})) /\
+  run_line default_config (s "3 pm") = Some (s "15:00:00 UTC", Some (TTime (20000 * 86400 + 15 * 3600) {| tz_name := s "UTC"; tz_off := 0 |})) /\
+  run_line default_config (s "11:05 AM CET") = Some (s "11:05:00 CET", Some (TTime (20000 * 86400 + 10 * 3600 + 300) {| tz_name := s "CET"; tz_off := 60 |})) /\
+  (* wrap across midnight in both directions *)
+  option_map fst (run_line default_config (s "23:30 + 45 minutes")) = Some (s "00:15:00 UTC") /\
+  option_map fst (run_line default_config (s "0:15 - 30 minutes")) = Some (s "23:45:00 UTC") /\
+  option_map fst (run_line default_config (s "12:00 - 36 hours")) = Some (s "00:00:00 UTC") /\
+  run_line default_config (s "10:30 to 13:00") = Some (s "2 hours 30 minutes", Some (TDuration 9000)) /\
+  run_line default_config (s "13:00 to 10:30") = Some (s "2 hours 30 minutes", Some (TDuration 9000)) /\
+  (* the default zone: literals are read in it; an explicit conversion does not depend on it *)
+  option_map fst (run_line (cfg_with_zone (s "GMT+5:30")) (s "9:00 pm to UTC")) = Some (s "15:30:00 UTC") /\
+  option_map fst (run_line (cfg_with_zone (s "GMT+5:30")) (s "10:30 EST to GMT+3")) = Some (s "18:30:00 GMT+3") /\
+  run_line (cfg_with_zone (s "GMT+5:30")) (s "21:00")
+    = Some (s "21:00:00 GMT+5:30", Some (TTime (20000 * 86400 + 21 * 3600 - 330 * 60) {| tz_name := s "GMT+5:30"; tz_off := 330 |})) /\
+  (* set_timezone *)
+  set_timezone default_config (s "EST") = Some (s "EST", -300) /\
+  set_timezone default_config (s "Mars") = None /\
+  shown (wall_of 10 30 0) (-300) 180 = wall_of 18 30 0.
+Proof. vm_compute. repeat split; reflexivity. Qed.
